@@ -98,6 +98,10 @@ func c12Resources(sc c12Scen) (entry string, res map[string][]byte, order []stri
 		cs.Tracks = "v+a"
 	case "ts-va":
 		cs.Container = "ts"
+	case "ts-big":
+		// one segment with more video units than the per-track sample queue of the MPEG-TS processor holds (100): the
+		// stream processor blocks while handing samples over, which is one more place where Close can find it
+		cs.Container, cs.Tracks, cs.Frames, cs.NSeg = "ts", "v", 120, 1
 	}
 	st, err := c10Build(cs)
 	if err != nil {
@@ -355,8 +359,8 @@ func c12Scens(tier string) []c12Scen {
 		bound = 2
 	}
 	for _, policy := range []int{0, 1, 2} {
-		for _, stream := range []string{"fmp4-va", "fmp4-v+a", "ts-va", "ll"} {
-			nreq := map[string]int{"fmp4-va": 4, "fmp4-v+a": 9, "ts-va": 3, "ll": 8}[stream]
+		for _, stream := range []string{"fmp4-va", "fmp4-v+a", "ts-va", "ll", "ts-big"} {
+			nreq := map[string]int{"fmp4-va": 4, "fmp4-v+a": 9, "ts-va": 3, "ll": 8, "ts-big": 2}[stream]
 			nseg := 2
 			for _, fault := range []string{"none", "404", "500", "neterr", "stall", "ontracks"} {
 				ats := []int{0}
